@@ -214,6 +214,20 @@ fn long_payload_pair() -> (Bytes, Bytes) {
     prefix.0.len = 1024;
     (whole, prefix)
 }
+// HARNESS props=C16 tier=quick profile=app_long shape="abstract long payload delivered (EVERY length from 113 bytes to 2^32-1, opaque content); the approval record is for the same payload or for any other long byte string — in particular one of the length and content a cut of the payload would have"
+#[kani::proof]
+#[kani::stub(axelar_gateway::messaging_interface::xc_AxelarGatewayMessagingClient_validate_message, spec_validate_message)]
+#[kani::stub(axelar_gateway::messaging_interface::xc_AxelarGatewayMessagingClient_is_message_approved, spec_is_message_approved)]
+#[kani::stub(axelar_gateway::messaging_interface::xc_AxelarGatewayMessagingClient_is_message_executed, spec_is_message_executed)]
+fn c16_example_execute_abstract_payload() {
+    let whole = any::bytes_long();
+    let other = any::bytes_long();
+    let d = delivery_with(whole.clone(), other.clone());
+    model::with_contract(&app(), || Example::execute(d.env.clone(), d.chain.clone(), d.id.clone(), d.src.clone(), d.payload.clone()));
+    check_effect(&d);
+    kani::assert(whole == other, "VERIF:C16:an approval of other bytes (a prefix, a cut, any other string) is not an approval of the payload");
+    kani::cover!(true, "VERIF:reach:long delivery executed");
+}
 // HARNESS props=C16 tier=quick profile=app_big shape="payload of 1030 symbolic bytes delivered; the approval record is for its 1024-byte prefix (or, by the symbolic status/fields, for nothing)"
 #[kani::proof]
 #[kani::stub(axelar_gateway::messaging_interface::xc_AxelarGatewayMessagingClient_validate_message, spec_validate_message)]
